@@ -269,6 +269,7 @@ KeyN(n) == <<107, 48 + n>>                             \* "k0" .. "k5": n slots 
 KeyR == <<107, 114>>                                   \* "kr": explicit indices, second argument first
 KeyU == <<122, 122>>                                   \* "zz": not in the table
 KeyE == <<107, 101>>                                   \* "ke": in the table, its translation is the empty string
+KeyP == <<107, 112>>                                   \* "kp": in the table, no slots, a literal percent sign in its text
 Lang == <<
   [key |-> KeyN(0), tpl |-> <<Lit(<<104, 101, 108, 108, 111>>)>>],                                                     \* hello
   [key |-> KeyN(1), tpl |-> <<Lit(<<49, 48, 48, 37, 32, 111, 102, 32>>), Arg(1), Lit(<<32, 106, 111, 105, 110, 101, 100>>)>>],  \* 100% of %s joined
@@ -277,7 +278,8 @@ Lang == <<
   [key |-> KeyN(4), tpl |-> <<Arg(1), Lit(<<44, 32>>), Arg(2), Lit(<<44, 32>>), Arg(3), Lit(<<44, 32>>), Arg(4)>>],
   [key |-> KeyN(5), tpl |-> <<Lit(<<91>>), Arg(1), Arg(2), Lit(<<45>>), Arg(3), Lit(<<45>>), Arg(4), Arg(5), Lit(<<93>>)>>],
   [key |-> KeyR, tpl |-> <<Arg(2), Lit(<<32, 98, 121, 32>>), Arg(1)>>],
-  [key |-> KeyE, tpl |-> <<>>] >>                                               \* %[2]s by %[1]s
+  [key |-> KeyE, tpl |-> <<>>],
+  [key |-> KeyP, tpl |-> <<Lit(<<53, 48, 37, 32, 111, 102, 102>>)>>] >>                                                \* 50% off                                               \* %[2]s by %[1]s
 Known(k) == \E i \in 1..Len(Lang) : Lang[i].key = k
 Tpl(k) == Lang[CHOOSE i \in 1..Len(Lang) : Lang[i].key = k].tpl
 Slots(k) == IF Known(k) THEN Cardinality({Tpl(k)[i].arg : i \in 1..Len(Tpl(k))} \ {0}) ELSE 0
@@ -354,7 +356,8 @@ TransV(c, v, K) ==
     [] v = 10 -> [c EXCEPT !.translate = KeyN(2), !.with = Take(NumKids, 0, 2)]
     [] v = 11 -> [c EXCEPT !.translate = KeyN(3), !.with = Take(NumKids, 2, 3)]
     [] v = 12 -> [c EXCEPT !.translate = KeyE]            \* a known key whose translation is empty: renders as nothing
-NVar(f) == CASE f \in 1..5 -> 1 [] f \in 6..9 -> 3 [] f = 10 -> 4 [] f = 11 -> 12 [] f = 12 -> 4 [] f = 13 -> Len(Toks)
+    [] v = 13 -> [c EXCEPT !.translate = KeyP]            \* no slots, but a percent sign that the format string escapes
+NVar(f) == CASE f \in 1..5 -> 1 [] f \in 6..9 -> 3 [] f = 10 -> 4 [] f = 11 -> 13 [] f = 12 -> 4 [] f = 13 -> Len(Toks)
 \* feature f in variant v applied to c, children drawn from the sequence K
 F(c, f, v, K) ==
   CASE f = 1 -> [c EXCEPT !.bold = TRUE]
